@@ -63,6 +63,7 @@ class _Helper:
         self.cls = cls
         self.static = any(isinstance(d, ast.Name) and d.id == "staticmethod" for d in fn.decorator_list)
         self.body = _body_without_doc(fn)
+        self.generator = any(isinstance(n, ast.Yield) for n in ast.walk(fn))
         self._collapse()
         self.expr = self.body[0].value if len(self.body) == 1 and isinstance(self.body[0], ast.Return) and self.body[0].value is not None else None
         a = fn.args
@@ -108,6 +109,8 @@ class _Helper:
             return False
         n_stmt = 0
         for n in ast.walk(fn):
+            if isinstance(n, ast.Yield) and _simple_generator(fn):
+                continue
             if isinstance(n, (ast.Yield, ast.YieldFrom, ast.Await, ast.Global, ast.Nonlocal)):
                 return False
             if n is not fn and isinstance(n, (ast.FunctionDef, ast.AsyncFunctionDef, ast.ClassDef, ast.Lambda)):
@@ -120,6 +123,29 @@ class _Helper:
                 if nm == fn.name:
                     return False         # recursive
         return n_stmt <= MAX_STATEMENTS
+
+
+def _simple_generator(fn: ast.FunctionDef) -> bool:
+    """`def g(..): [assignments] for v in xs: [if c:] yield e` -- one loop, one `yield` statement that ends its path through the loop
+    body, no `return`: a `for x in g(..): BODY` is then that loop with `x = e; BODY` in place of the yield."""
+    body = _body_without_doc(fn)
+    if not body or not isinstance(body[-1], ast.For) or body[-1].orelse or any(not isinstance(s, ast.Assign) for s in body[:-1]):
+        return False
+    ys = [n for n in ast.walk(fn) if isinstance(n, (ast.Yield, ast.YieldFrom))]
+    if len(ys) != 1 or not isinstance(ys[0], ast.Yield) or ys[0].value is None or any(isinstance(n, ast.Return) for n in ast.walk(fn)):
+        return False
+
+    def tail(block):
+        if not block:
+            return False
+        last = block[-1]
+        if isinstance(last, ast.Expr) and last.value is ys[0]:
+            return not any(y is ys[0] for s in block[:-1] for y in ast.walk(s))
+        if isinstance(last, ast.If) and not any(y is ys[0] for s in block[:-1] for y in ast.walk(s)):
+            inb = any(y is ys[0] for s in last.body for y in ast.walk(s))
+            return tail(last.body) if inb else tail(last.orelse)
+        return False
+    return tail(body[-1].body) and not any(isinstance(n, (ast.While, ast.For)) and n is not body[-1] for n in ast.walk(fn))
 
 
 class _Rename(ast.NodeTransformer):
@@ -280,12 +306,38 @@ class Inliner:
     def inline_stmt(self, s: ast.stmt, cls: str | None, host_names: set[str]) -> list[ast.stmt] | None:
         """The statements that replace `s` when its value is a call of a statement helper, else None."""
         call, mode = None, None
+        # `for x in gen(..): BODY` over a simple generator helper: the generator's loop with `x = <yielded>; BODY` where it yields
+        if isinstance(s, ast.For) and not s.orelse and isinstance(s.iter, ast.Call):
+            rg = self.resolve(s.iter, cls)
+            if rg is not None and rg[0].generator:
+                h, recv = rg
+                try:
+                    prefix, rename, subst = self.bind(h, s.iter, recv, host_names)
+                except NotInlinable:
+                    return None
+                body = [_Rename(rename, subst).visit(copy.deepcopy(x)) for x in h.body]
+                done = []
+
+                class _Y(ast.NodeTransformer):
+                    def visit_Expr(self2, e):
+                        if isinstance(e.value, ast.Yield):
+                            done.append(1)
+                            return [ast.copy_location(ast.Assign(targets=[copy.deepcopy(s.target)], value=e.value.value), e)] + s.body
+                        return e
+                body = [_Y().visit(x) for x in body]
+                if len(done) != 1:
+                    return None
+                self.count += 1
+                out = prefix + body
+                host_names |= {n.id for x in out for n in ast.walk(x) if isinstance(n, ast.Name)}
+                return out
+            return None
         # `obj.m(helper(...))` as a statement: the helper (another scope: it cannot rebind `obj`) runs first either way, so this is
         # `t = helper(...)` / `obj.m(t)`
         if isinstance(s, ast.Expr) and isinstance(s.value, ast.Call) and isinstance(s.value.func, ast.Attribute) and _simple(s.value.func.value) \
                 and len(s.value.args) == 1 and not s.value.keywords and isinstance(s.value.args[0], ast.Call):
             r0 = self.resolve(s.value.args[0], cls)
-            if r0 is not None and r0[0].expr is None:
+            if r0 is not None and r0[0].expr is None and not r0[0].generator:
                 tmp = f"_arg_{r0[0].fn.name.strip('_')}"
                 while tmp in host_names:
                     tmp += "_"
@@ -314,7 +366,7 @@ class Inliner:
         if call is None:
             return None
         r = self.resolve(call, cls)
-        if r is None:
+        if r is None or r[0].generator:
             return None
         if mode == "ifnot" and not s.orelse and len(s.body) == 1 and isinstance(s.body[0], ast.Return) and isinstance(s.body[0].value, ast.Constant) \
                 and s.body[0].value.value is False and (r[0].expr is None or isinstance(r[0].expr, ast.BoolOp)):
@@ -395,7 +447,7 @@ class Inliner:
                 and isinstance(s.value.generators[0].target, ast.Name) and isinstance(s.value.elt, ast.Call)):
             return None
         r = self.resolve(s.value.elt, cls)
-        if r is None or r[0].expr is not None:
+        if r is None or r[0].expr is not None or r[0].generator:
             return None
         g = s.value.generators[0]
         if any(isinstance(x, ast.Name) and x.id == s.targets[0].id for x in ast.walk(s.value)):
